@@ -30,9 +30,30 @@ pub mod fs {
     pub struct File { pub id: Ghost<int> }
     pub struct Metadata { pub id: Ghost<int> }
     pub uninterp spec fn sp_is_file(m: &Metadata) -> bool;
+    pub uninterp spec fn sp_is_dir(m: &Metadata) -> bool;
+    pub uninterp spec fn sp_is_symlink(m: &Metadata) -> bool;
+    /// std::fs::FileType (not used by the pinned code: a partial contract so that a change that classifies the file through
+    /// `file_type()` stays analysable).  The three kinds exclude each other and do NOT exhaust the file types (devices,
+    /// FIFOs and sockets are none of them).
+    #[derive(Clone, Copy)]
+    pub struct FileType { pub file: bool, pub dir: bool, pub symlink: bool }
+    impl FileType {
+        pub fn is_file(&self) -> (r: bool) ensures r == self.file { self.file }
+        pub fn is_dir(&self) -> (r: bool) ensures r == self.dir { self.dir }
+        pub fn is_symlink(&self) -> (r: bool) ensures r == self.symlink { self.symlink }
+    }
     impl Metadata {
         #[verifier::external_body]
         pub fn is_file(&self) -> (r: bool) ensures r == sp_is_file(self) { unimplemented!() }
+        #[verifier::external_body]
+        pub fn is_dir(&self) -> (r: bool) ensures r == sp_is_dir(self), r ==> !sp_is_file(self) { unimplemented!() }
+        #[verifier::external_body]
+        pub fn is_symlink(&self) -> (r: bool) ensures r == sp_is_symlink(self), r ==> !sp_is_file(self) { unimplemented!() }
+        #[verifier::external_body]
+        pub fn file_type(&self) -> (r: FileType)
+            ensures r.file == sp_is_file(self), r.dir == sp_is_dir(self), r.symlink == sp_is_symlink(self),
+                    !(r.file && r.dir), !(r.file && r.symlink), !(r.dir && r.symlink)
+        { unimplemented!() }
     }
 }
 /// src/platform.rs `file_info` (fstat / GetFileInformationByHandle: FFI, not analysed): what the OS reports for the file.
